@@ -166,21 +166,35 @@ def rule_entry(facts):
     if not ok:
         r.violations.append(V("ENTRY", b["qname"], "into_result converts a result with errors to Ok",
                               "into_result must return Err whenever errs is non-empty and Ok only if the output exists: %s" % why, *loc(b)))
-    for q, call, fld in (("ParseResult::has_output", "is_some", "output"), ("ParseResult::has_errors", "is_empty", "errs")):
-        b = facts.one(q)
-        pv = Prov(b)
-        cs = [t for _, _, t, f in calls(b) if f is not None and f["name"] == call]
-        ok = len(cs) == 1 and pv.of_operand(cs[0]["args"][0]["op"]) == {("arg", 1, fld)}
-        if ok and q.endswith("has_errors"):
-            # negated
-            ret = pv.of_local(0)
-            ok = any(x[0] == "un" and x[1] == "Not" for x in ret)
-        if ok and q.endswith("has_output"):
-            ret = pv.of_local(0)
-            ok = all(x[0] == "call" and x[1] == "is_some" for x in ret)
-        r.ob(ok)
-        if not ok:
-            r.violations.append(V("ENTRY", q, "accessor", "%s must be %s(self.%s)%s" % (q, call, fld, " negated" if "errors" in q else ""), *loc(b)))
+    # has_output == output.is_some();  has_errors == !errs.is_empty()  (or errs.len() compared with 0)
+    b = facts.one("ParseResult::has_output")
+    pv = Prov(b)
+    ret = pv.of_local(0)
+    ok = bool(ret) and all(x[0] == "call" and x[1] == "is_some" and [set(a) for a in x[3]] == [{("arg", 1, "output")}] for x in ret)
+    r.ob(ok)
+    if not ok:
+        r.violations.append(V("ENTRY", b["qname"], "accessor", "has_output must be self.output.is_some(); returns %s" % fmt_roots(ret), *loc(b)))
+    b = facts.one("ParseResult::has_errors")
+    pv = Prov(b)
+    ret = pv.of_local(0)
+
+    def _is_errs_len(rs):
+        return bool(rs) and all(y[0] == "call" and y[1] == "len" and [set(a) for a in y[3]] == [{("arg", 1, "errs")}] for y in rs)
+
+    def _is_zero(rs):
+        return bool(rs) and all(y[0] == "const" and re.match(r"^0(_usize)?$", y[1].strip()) for y in rs)
+    ok = False
+    for x in ret:
+        if x[0] == "un" and x[1] == "Not" and all(y[0] == "call" and y[1] == "is_empty" and [set(a) for a in y[3]] == [{("arg", 1, "errs")}] for y in x[2]) and x[2]:
+            ok = True
+        if x[0] == "bin" and x[1] in ("Ne", "Gt") and _is_errs_len(x[2]) and _is_zero(x[3]):
+            ok = True
+        if x[0] == "bin" and x[1] in ("Ne", "Lt") and _is_zero(x[2]) and _is_errs_len(x[3]):
+            ok = True
+    ok = ok and len(ret) == 1
+    r.ob(ok)
+    if not ok:
+        r.violations.append(V("ENTRY", b["qname"], "accessor", "has_errors must be !self.errs.is_empty() (or errs.len() != 0); returns %s" % fmt_roots(ret), *loc(b)))
     for q, fld in (("ParseResult::into_output", ("output",)), ("ParseResult::into_errors", ("errs",))):
         b = facts.one(q)
         pv = Prov(b)
